@@ -621,3 +621,56 @@ Proof. reflexivity. Qed.
 Print Assumptions compose_jwt_decode_jwe_sound.
 Print Assumptions compose_jwe_tdec_accepted.
 Print Assumptions compose_jwt_decode_jwe_forged.
+
+(* ================================================================== *)
+(* Part 5 — C06's jwe_suitable on the key-management step (partial)     *)
+(* ================================================================== *)
+From Proofs Require C06Proofs ComposeJweC06.
+
+(* PARTIAL.  Consuming side (decrypt_recipient), families dir / A*KW / A*GCMKW only: a
+   CEK-yielding key-management step is an accepting run of C06's jwe_run (EDecCompact, key given
+   directly, standard primitives) on the related key, so C06's theorem gives jwe_suitable (key type
+   oct, exact size, declared use, unwrapKey allowed, private material).
+   Missing: PBES2, RSA*, ECDH-ES(+KW), ECDH-1PU (need the simulation of their decrypt_cek / dec_auk
+   branches, incl. the epk-import relation); the producing side (encrypt_cek / pre_loop);
+   in (b) the error CLASS and "before the primitive is consulted" (only failure is derived). *)
+Theorem compose_c06_jwe_suitable_kw_partial : forall O alg enc a e hs r tag cek use k6 ek,
+  JweMsg.find_alg (asc alg) = Some a -> JweMsg.find_enc (asc enc) = Some e ->
+  ea_key_types a = ["oct"%string] ->
+  (ea_family a = "dir"%string \/
+   ((ea_family a = "AESKW"%string \/ ea_family a = "AESGCMKW"%string) /\ exists sz, ea_key_size a = Some sz)) ->
+  krel (r_key r) use k6 -> C06Spec.key_wf k6 ->
+  C06Model.check_use "enc" k6 = Ok tt ->
+  decrypt_recipient O a e hs r tag = Ok cek ->
+  C06Spec.jwe_suitable alg false (C06Proofs.cek_of enc) k6 None ek.
+Proof. exact ComposeJweC06.jwe_suitable_kw_decrypt. Qed.
+
+Theorem compose_c06_jwe_unsuitable_kw_fails_partial : forall O alg enc a e hs r tag use k6 ek,
+  JweMsg.find_alg (asc alg) = Some a -> JweMsg.find_enc (asc enc) = Some e ->
+  ea_key_types a = ["oct"%string] ->
+  (ea_family a = "dir"%string \/
+   ((ea_family a = "AESKW"%string \/ ea_family a = "AESGCMKW"%string) /\ exists sz, ea_key_size a = Some sz)) ->
+  krel (r_key r) use k6 -> C06Spec.key_wf k6 ->
+  C06Model.check_use "enc" k6 = Ok tt ->
+  ~ C06Spec.jwe_suitable alg false (C06Proofs.cek_of enc) k6 None ek ->
+  exists x, decrypt_recipient O a e hs r tag = Err x.
+Proof. exact ComposeJweC06.jwe_unsuitable_kw_decrypt_fails. Qed.
+
+(* the side conditions on the row hold for every dir / A*KW / A*GCMKW row of /repo *)
+Theorem compose_c06_jwe_kw_rows :
+  forallb (fun r => if String.eqb (ea_family r) "dir" || String.eqb (ea_family r) "AESKW"
+                       || String.eqb (ea_family r) "AESGCMKW"
+                    then match ea_key_types r with [t] => String.eqb t "oct" | _ => false end
+                         && (String.eqb (ea_family r) "dir" ||
+                             match ea_key_size r with Some _ => true | None => false end)
+                    else true) jwe_alg_table_drafts = true.
+Proof. exact ComposeJweC06.kw_rows_table. Qed.
+
+Example compose_c06_jwe_ex_kw :
+  exists a e, JweMsg.find_alg (asc "A128KW") = Some a /\ JweMsg.find_enc (asc "A128GCM") = Some e /\
+    ea_key_types a = ["oct"%string] /\ ea_family a = "AESKW"%string /\ ea_key_size a = Some 128.
+Proof. eexists. eexists. split; [vm_compute; reflexivity|]. split; [vm_compute; reflexivity|]. repeat split. Qed.
+
+Print Assumptions compose_c06_jwe_suitable_kw_partial.
+Print Assumptions compose_c06_jwe_unsuitable_kw_fails_partial.
+Print Assumptions compose_c06_jwe_kw_rows.
